@@ -756,6 +756,9 @@ func rulesC14(c *Ctx) {
 	executeAsyncRule(c)
 	c07Race(c)
 	c09Loop(c)
+	// no user listener under a policy's lock; half-open admission by the execution that half-opens the breaker
+	c16Overrides(c)
+	c03OpenTable(c)
 	configImmutableAll(c)
 	buildCopiesConfig(c)
 	witnessRules(c, "C14")
